@@ -310,11 +310,13 @@ class SimWriteFile:
 class SimReadFile:
     """A file opened for reading under a read-fault plan ('eio' after n bytes)."""
 
-    def __init__(self, real, after, binary, path):
+    def __init__(self, real, after, binary, path, code=None, at_eof=False):
         self._data = real.read()
         real.close()
         self._pos = 0
-        self._after = after
+        self._after = len(self._data) + 1 if at_eof else after      # at_eof: every byte is delivered, the read that would report EOF fails
+        self._at_eof = at_eof
+        self._code = code or errno_mod.EIO
         self._binary = binary
         self.name = path
         self.closed = False
@@ -322,12 +324,14 @@ class SimReadFile:
         self.encoding = None if binary else 'utf-8'
 
     def _fail(self):
-        raise OSError(errno_mod.EIO, os.strerror(errno_mod.EIO))
+        raise OSError(self._code, os.strerror(self._code))
 
     def readable(self):
         return True
 
     def read(self, size=-1):
+        if self._at_eof and self._pos >= len(self._data):
+            self._fail()
         if self._pos >= self._after or self._after == 0:
             self._fail()
         limit = self._after
@@ -348,8 +352,8 @@ class SimReadFile:
         return out
 
     def readline(self, size=-1):
-        if self._after == 0:
-            self._fail()      # the very first read fails, whatever the file holds
+        if self._after == 0 or (self._at_eof and self._pos >= len(self._data)):
+            self._fail()      # the very first read fails, whatever the file holds / the read that would report EOF fails
         nl = b'\n' if self._binary else '\n'
         i = self._data.find(nl, self._pos)
         end = len(self._data) if i < 0 else i + 1
@@ -471,12 +475,15 @@ def _install(ch):
             ch.log({'k': 'read', 'path': rel})
         if rp:
             ch.log({'k': 'readfault', 'path': rel, 'plan': rp})
+            if rp.get('once'):
+                ch.reads = {k_: v_ for k_, v_ in ch.reads.items() if k_ != rel}     # transient: the next open of the path is clean
             if rp['kind'] == 'oserror':
                 code = getattr(errno_mod, rp['errno'])
                 raise OSError(code, os.strerror(code), os.fspath(file))
             if rp['kind'] == 'eio':
                 real = _real_open(file, mode, buffering, encoding, errors, newline, closefd, opener)
-                return SimReadFile(real, int(rp['after']), 'b' in mode, os.fspath(file))
+                return SimReadFile(real, int(rp.get('after', 0)), 'b' in mode, os.fspath(file),
+                                   code=getattr(errno_mod, rp['errno']) if rp.get('errno') else None, at_eof=bool(rp.get('at_eof')))
         return _real_open(file, mode, buffering, encoding, errors, newline, closefd, opener)
 
     vanish = dict(plan.get('vanish') or {})      # relpath -> k: removed just before the k-th observation (stat or open)
@@ -725,28 +732,32 @@ def _install(ch):
 
     urllib.request.urlopen = sim_urlopen
 
-    # ---- clock
-    today = plan.get('today', '2025-06-15')
+    # ---- clock (pinned; a test history may move it with ch.set_today - a long-lived process can live through midnight)
     import datetime as _dt
-    y, m, d = (int(x) for x in today.split('-'))
+    ch.today = [int(x) for x in plan.get('today', '2025-06-15').split('-')]
+
+    def set_today(text):
+        ch.today[:] = [int(x) for x in text.split('-')]
+        ch.log({'k': 'clock-set', 'today': text})
+    ch.set_today = set_today
 
     class SimDate(_dt.date):
         @classmethod
         def today(cls):
-            return _dt.date(y, m, d)
+            return _dt.date(*ch.today)
 
     class SimDateTime(_dt.datetime):
         @classmethod
         def now(cls, tz=None):
-            return _dt.datetime(y, m, d, 12, 0, 0, tzinfo=tz)
+            return _dt.datetime(ch.today[0], ch.today[1], ch.today[2], 12, 0, 0, tzinfo=tz)
 
         @classmethod
         def today(cls):
-            return _dt.datetime(y, m, d, 12, 0, 0)
+            return _dt.datetime(ch.today[0], ch.today[1], ch.today[2], 12, 0, 0)
 
         @classmethod
         def utcnow(cls):
-            return _dt.datetime(y, m, d, 12, 0, 0)
+            return _dt.datetime(ch.today[0], ch.today[1], ch.today[2], 12, 0, 0)
 
     try:
         import tally.modifier_parser as mp
@@ -764,7 +775,7 @@ def _install(ch):
 
     def no_time(*a, **kw):
         ch.log({'k': 'clock-read'})
-        return 1750000000.0
+        return 1750000000.0 + 86400.0 * (_dt.date(*ch.today) - _dt.date(2025, 6, 15)).days
     time.time = no_time
 
     # ---- evaluation boundary (C08 "buggify"): ExpressionError for chosen (expression text, item id) pairs
